@@ -81,6 +81,35 @@ class Runner:
         return {"problems": probs, "r": r, "out": out, "err": err, "verdict": verdict, "replay": replay, "rc": rc}
 
 
+def _judge(self, sc, out, rc, err, ordinal, of):
+    r = expcorr.parse_output(out)
+    probs = []
+    if rc != 0:
+        probs.append("harness exit code %d: %s" % (rc, err[-300:].replace("\n", " | ")))
+    probs += expcorr.check_counters(sc, r)
+    verdict = replay = ""
+    if sc.mode == "par" and r["P"] is not None:
+        verdict, replay = expcorr.model_check(self.lean_exe, out)
+        if not verdict.startswith("verdict ok"):
+            probs.append("Monitor.C19 on the implementation log: " + verdict)
+    if probs and of > 1:
+        probs = ["experiment %d of %d run by the same process (n = %d, size %d): %s" % (ordinal + 1, of, sc.n, sc.size, probs[0])] + probs[1:]
+    return {"problems": probs, "r": r, "out": out, "err": err, "verdict": verdict, "replay": replay, "rc": rc}
+
+
+def _run_group(self, group):
+    """several experiments in ONE process; returns one result dict per experiment"""
+    rc, blocks, err = expcorr.run_group(self.c_exe, group)
+    res = []
+    for j, sc in enumerate(group):
+        out = blocks[j] if j < len(blocks) else ""
+        res.append(_judge(self, sc, out, rc if j >= len(blocks) - 1 else 0, err, j, len(group)))
+    return res
+
+
+Runner.run_group = _run_group
+
+
 def replay_text(sc_lines, res=None, extra=""):
     t = "\n".join(sc_lines) + "\n"
     if extra:
@@ -99,7 +128,7 @@ def run(chk):
         "trial functions return, establish everything they rely on (seed, event queue, logger flags) from their own "
         "parameters, and do not write outside their own element",
         "num_trials > 0, trial_struct_size > 0, non-NULL array and function (release asserts of cimba_run_experiment); "
-        "index * size does not wrap (the array exists in memory); one experiment at a time per process",
+        "index * size does not wrap (the array exists in memory); experiments of one process run one after the other, not concurrently",
         "results that depend on object addresses are excluded (known finding address-tiebreak)",
     ]
     # ---- T-gen ---------------------------------------------------------
@@ -146,26 +175,38 @@ def run(chk):
     n_corpus = 0
     for path in expcorr.corpus_files():
         name = os.path.basename(path)
-        expect, scs = expcorr.read_corpus(path)
+        expect, groups = expcorr.read_corpus(path)
+        multi = any(len(g) > 1 for g in groups)
+        scs = [g[0] for g in groups]
         results, file_bad = [], False
-        for sc in scs:
-            res = rn.run_par(sc)
+        for grp in groups:
+            gres = rn.run_group(grp)
             rn.evals += 1
             n_corpus += 1
-            if res["problems"]:
-                if not file_bad:
-                    report(chk, "corpus %s: %s" % (name, "; ".join(res["problems"][:3])), replay_text([sc.line()], res), True)
-                file_bad = True
-                continue
-            results.append((sc, res))
-            if sc.mode == "par" and not res["replay"].startswith("replay ok"):
-                report(chk, "corpus %s: the observed run is not a behaviour of CimbaModel.Experiment.Model: %s; the counters and "
-                       "Monitor.C19 accept the run" % (name, res["replay"]), replay_text([sc.line()], res), False)
+            for sc, res in zip(grp, gres):
+                if not res["problems"] and multi and sc.kinds and sc.mode == "par":
+                    rc, ref, err = rn.ref(sc, "seq")
+                    if expcorr.digests(res["r"]) != expcorr.digests(ref):
+                        res["problems"].append("result digests differ from the sequential run of the same trials")
+                if res["problems"]:
+                    if not file_bad:
+                        report(chk, "corpus %s: %s" % (name, "; ".join(res["problems"][:3])),
+                               replay_text([expcorr.group_line(grp)], res), True)
+                    file_bad = True
+                    break
+                if sc.mode == "par" and not res["replay"].startswith("replay ok"):
+                    report(chk, "corpus %s: the observed run is not a behaviour of CimbaModel.Experiment.Model: %s; the counters and "
+                           "Monitor.C19 accept the run" % (name, res["replay"]), replay_text([expcorr.group_line(grp)], res), False)
+                else:
+                    rn.validated += 1
+                    if sc.mode == "par":
+                        stats.append(dict(expcorr.assignment_sig(res["r"]), n=sc.n, W=res["r"]["P"][0], size=sc.size, kinds=sc.kinds,
+                                          pat=sc.pat, ordinal=grp.index(sc)))
             else:
-                rn.validated += 1
-                if sc.mode == "par":
-                    stats.append(dict(expcorr.assignment_sig(res["r"]), n=sc.n, W=res["r"]["P"][0], size=sc.size, kinds=sc.kinds,
-                                      pat=sc.pat))
+                if not multi:
+                    results.append((grp[0], gres[0]))
+        if multi:
+            continue
         if file_bad or not results:
             continue
         vecs = {expcorr.digests(res["r"]) for _, res in results}
@@ -201,49 +242,54 @@ def run(chk):
                 "digests identical" % len(aux)) if len(aux) > 1 else "not observed in this run"
     # ---- generated scenarios ---------------------------------------------
     total = 1500 if quick else 12000
-    scs = expcorr.generate(chk.seed, total, flips_ok)
-    if not quick:
-        scs += expcorr.stress(chk.seed, 400)
-    else:
-        scs += expcorr.stress(chk.seed, 40)
+    groups = [[sc] for sc in expcorr.generate(chk.seed, total, flips_ok)]
+    groups += [[sc] for sc in expcorr.stress(chk.seed, 40 if quick else 400)]
+    groups += expcorr.generate_groups(chk.seed, 150 if quick else 1500, flips_ok)
+    groups += expcorr.stress_groups(chk.seed, 10 if quick else 100)
 
-    def work(sc):
-        return sc, rn.run_par(sc)
+    def work(grp):
+        return grp, rn.run_group(grp)
     # sequential references first (shared), in parallel
     keys = {}
-    for sc in scs:
-        if sc.kinds:
-            keys.setdefault(sc.ref_key(), sc)
+    for grp in groups:
+        for sc in grp:
+            if sc.kinds:
+                keys.setdefault(sc.ref_key(), sc)
     vlib.parallel_map(lambda sc: rn.ref(sc, "seq"), list(keys.values()), workers=max(2, vlib.NPROC // 2))
     some = list(keys.values())[:: max(1, len(keys) // 12)]
     vlib.parallel_map(lambda sc: (rn.ref(sc, "rev"), rn.ref(sc, "fresh")), some, workers=max(2, vlib.NPROC // 2))
-    # the runner itself: a few at a time, so that runs with many threads overlap and perturb each other
-    results = vlib.parallel_map(work, scs, workers=4)
-    rn.evals += len(results)
+    # the runner itself: a few processes at a time, so that runs with many threads overlap and perturb each other
+    gresults = vlib.parallel_map(work, groups, workers=4)
+    rn.evals += len(gresults)
+    results = [(grp[0], gres[0]) for grp, gres in gresults if len(grp) == 1]
     bad = []
-    for sc, res in results:
-        probs = list(res["problems"])
-        if not probs and sc.kinds:
-            rc, ref, err = rn.ref(sc, "seq")
-            d, dr = expcorr.digests(res["r"]), expcorr.digests(ref)
-            if rc != 0 or d != dr:
-                first = next((i for i in range(sc.n) if i >= len(d) or i >= len(dr) or d[i] != dr[i]), 0)
-                probs.append("result digest of trial %d differs from the sequential single-thread run of the same trials "
-                             "(%s vs %s)" % (first, d[first] if first < len(d) else "?", dr[first] if first < len(dr) else "?"))
-            for mode in ("rev", "fresh"):
-                k = (mode,) + sc.ref_key()
-                if k in rn.refs and expcorr.digests(rn.refs[k][1]) != dr:
-                    probs.append("sequential order '%s' gives different digests than order 'seq'" % mode)
-        if probs:
-            bad.append((sc, res, probs, True))
-        elif not res["replay"].startswith("replay ok"):
-            bad.append((sc, res, ["the observed run is not a behaviour of CimbaModel.Experiment.Model: %s; counters, Monitor.C19 and "
-                                  "digests accept the run" % res["replay"]], False))
-        else:
-            rn.validated += 1
-            stats.append(dict(expcorr.assignment_sig(res["r"]), n=sc.n, W=res["r"]["P"][0], size=sc.size, kinds=sc.kinds, pat=sc.pat))
-    for sc, res, probs, found in bad:
-        lines = [sc.line()] + ([sc.line("seq")] if sc.kinds else [])
+    for grp, gres in gresults:
+        for j, (sc, res) in enumerate(zip(grp, gres)):
+            probs = list(res["problems"])
+            if not probs and sc.kinds:
+                rc, ref, err = rn.ref(sc, "seq")
+                d, dr = expcorr.digests(res["r"]), expcorr.digests(ref)
+                if rc != 0 or d != dr:
+                    first = next((i for i in range(sc.n) if i >= len(d) or i >= len(dr) or d[i] != dr[i]), 0)
+                    probs.append("result digest of trial %d differs from the sequential single-thread run of the same trials "
+                                 "(%s vs %s)" % (first, d[first] if first < len(d) else "?", dr[first] if first < len(dr) else "?"))
+                for mode in ("rev", "fresh"):
+                    k = (mode,) + sc.ref_key()
+                    if k in rn.refs and expcorr.digests(rn.refs[k][1]) != dr:
+                        probs.append("sequential order '%s' gives different digests than order 'seq'" % mode)
+            if probs:
+                bad.append((grp, sc, res, probs, True))
+                break
+            elif not res["replay"].startswith("replay ok"):
+                bad.append((grp, sc, res, ["the observed run is not a behaviour of CimbaModel.Experiment.Model: %s; counters, "
+                                           "Monitor.C19 and digests accept the run" % res["replay"]], False))
+                break
+            else:
+                rn.validated += 1
+                stats.append(dict(expcorr.assignment_sig(res["r"]), n=sc.n, W=res["r"]["P"][0], size=sc.size, kinds=sc.kinds,
+                                  pat=sc.pat, ordinal=j))
+    for grp, sc, res, probs, found in bad:
+        lines = [expcorr.group_line(grp)] + ([sc.line("seq")] if sc.kinds and len(grp) == 1 else [])
         report(chk, "; ".join(probs[:3]), replay_text(lines, res), found)
     if bad:
         chk.cov["failing_runs"] = len(bad)
@@ -293,7 +339,8 @@ def run(chk):
     chk.cov["distinct_nontrivial"] = len(nontriv)
     chk.cov["traces_validated_against_impl"] = rn.validated
     chk.cov["rule"] = (
-        "one evaluation = one process running cimba_run_experiment (or a sequential reference) on a generated experiment: trial "
+        "one evaluation = one process running cimba_run_experiment (or a sequential reference) on a generated experiment, or on two "
+        "or three experiments one after the other (later ones larger than, equal to, smaller than the first; other sizes / W): trial "
         "counts 1, 2, cores-1, cores, cores+1, 10*cores and one more; struct sizes 64..4104 incl. sizes that are not a multiple of 8; "
         "W = the library's own core count or 1..4*cores (cmi_cpu_cores overridden at link time); seven per-trial busy-delay patterns; "
         "trial contents: processes + resource, buffer, object queue, 16 samplers, gamma/geometric caches with alternating "
@@ -312,6 +359,8 @@ def run(chk):
         "starts_not_in_index_order": sum(1 for s in stats if not s["starts_in_index_order"]),
         "completion_reordered": sum(1 for s in stats if s["completion_reordered"]),
         "runs_with_fewer_trials_than_workers": sum(1 for s in stats if s["n"] < s["W"]),
+        "position_of_the_experiment_in_its_process": dict(collections.Counter(s.get("ordinal", 0) for s in stats)),
+        "processes_running_several_experiments": sum(1 for g in groups if len(g) > 1),
         "sequential_references": len(rn.refs), "corpus_runs": n_corpus, "coin_flips_included": flips_ok,
     }
     if getattr(chk, "suppressed", 0):
@@ -323,15 +372,19 @@ def run(chk):
         found = False
         import time
         t_end = time.time() + (40 if quick else 600)
-        for sc in expcorr.stress(chk.seed + 1, 4000):
+        search = []
+        for a_, b_ in zip(expcorr.stress_groups(chk.seed + 1, 4000), expcorr.stress(chk.seed + 1, 4000)):
+            search += [a_, [b_]]
+        for grp in search:
             if time.time() > t_end:
                 break
-            res = rn.run_par(sc)
+            gres = rn.run_group(grp)
             rn.evals += 1
-            if res["problems"]:
+            hit = [r_ for r_ in gres if r_["problems"]]
+            if hit:
                 chk.violation("the dispenser / join found in src/cimba.c is not the documented one (%s) and the real runner "
-                              "misbehaves: %s" % (_why_broken(chk, tgen_ok, badvars), "; ".join(res["problems"][:3])),
-                              replay_text([sc.line()], res), True)
+                              "misbehaves: %s" % (_why_broken(chk, tgen_ok, badvars), "; ".join(hit[0]["problems"][:3])),
+                              replay_text([expcorr.group_line(grp)], hit[0]), True)
                 found = True
                 break
         chk.cov["evaluations"] = rn.evals
@@ -363,6 +416,7 @@ open CimbaModel.Experiment
 def fetchMode : FetchMode := .atomicFetchAdd
 def fetchIncr : Nat := 1
 def initNext : Nat := 0
+def resetsCounterEachRun : Bool := true
 def stopWhen (idx total : Nat) : Bool := (decide (idx ≥ total))
 def elemAddr (base idx sz : Nat) : Nat := (base + (idx * sz))
 def spawnStart : Nat := 0
@@ -392,20 +446,21 @@ def replay(chk, path):
         _write_reference_generated()
     vlib.lake_build(["expmain"])
     rn = Runner(chk, vlib.cc_harness("expdrv", impl), vlib.lean_exe("expmain"))
-    scs = [Scenario.parse(l.strip()) for l in open(path) if l.startswith("run ")]
+    groups = [expcorr.parse_group(l.strip()) for l in open(path) if l.startswith("run ")]
     chk.cov["evaluations"] = 0
     vecs = {}
-    for sc in scs:
-        for attempt in range(25 if sc.mode == "par" else 1):
-            res = rn.run_par(sc)
+    for grp in groups:
+        for attempt in range(25 if grp[0].mode == "par" else 1):
+            gres = rn.run_group(grp)
             chk.cov["evaluations"] += 1
-            if res["problems"]:
-                chk.violation("replay: " + "; ".join(res["problems"][:3]), replay_text([sc.line()], res), True)
-                return
-            vecs.setdefault(sc.ref_key(), set()).add(expcorr.digests(res["r"]))
+            for sc, res in zip(grp, gres):
+                if res["problems"]:
+                    chk.violation("replay: " + "; ".join(res["problems"][:3]), replay_text([expcorr.group_line(grp)], res), True)
+                    return
+                vecs.setdefault(sc.ref_key(), set()).add(expcorr.digests(res["r"]))
     for k, v in vecs.items():
         if len(v) > 1:
             chk.violation("replay: the same trials give %d different result vectors over the runs of this file" % len(v),
-                          "\n".join(sc.line() for sc in scs), True)
+                          "\n".join(expcorr.group_line(g) for g in groups), True)
             return
     chk.log("replay: property held on all runs of the file")
